@@ -13,10 +13,13 @@ import (
 type State struct {
 	pc    Term
 	comps map[string]Term
+	// parts: when the state is a join of several paths, their (absolute) path conditions; pc is their disjunction.
+	// Used to split a hard obligation into one query per incoming path.
+	parts []Term
 }
 
 func (s *State) Clone() *State {
-	n := &State{pc: s.pc, comps: make(map[string]Term, len(s.comps))}
+	n := &State{pc: s.pc, comps: make(map[string]Term, len(s.comps)), parts: s.parts}
 	for k, v := range s.comps {
 		n.comps[k] = v
 	}
@@ -124,6 +127,7 @@ type Obligation struct {
 	Time    float64
 	Model   string
 	Trivial bool
+	Parts  []Term // path conditions of the joined paths (PC is their disjunction), if any
 	Vacuity bool // expected to be undischarged: discharged means the context is contradictory
 	Restricted bool // goal checked under a known-finding restriction
 	KFWhat  string
@@ -168,7 +172,7 @@ func (u *Unit) comment(s string) {
 }
 
 func (u *Unit) oblige(st *State, kind, fn, label, pos string, goal Term, tags []string) *Obligation {
-	o := &Obligation{Func: fn, Kind: kind, Label: label, Pos: pos, Prefix: len(u.cmds), PC: st.pc, Goal: goal, Unit: u, Tags: tags}
+	o := &Obligation{Func: fn, Kind: kind, Label: label, Pos: pos, Prefix: len(u.cmds), PC: st.pc, Goal: goal, Unit: u, Tags: tags, Parts: st.parts}
 	o.Name = fn + "." + label
 	u.obls = append(u.obls, o)
 	return o
@@ -221,6 +225,19 @@ func (u *Unit) merge(states []*State) *State {
 		pcs[i] = s.pc
 	}
 	out := &State{pc: u.define("pc", Or(pcs...)), comps: map[string]Term{}}
+	for _, s := range live {
+		if len(s.parts) > 0 {
+			// earlier joins on this path: refine each of their cases by this path's own condition
+			for _, p := range s.parts {
+				out.parts = append(out.parts, u.define("pc", And(p, s.pc)))
+			}
+		} else {
+			out.parts = append(out.parts, s.pc)
+		}
+	}
+	if len(out.parts) > 8 {
+		out.parts = nil
+	}
 	names := map[string]bool{}
 	for _, s := range live {
 		for k := range s.comps {
